@@ -381,12 +381,15 @@ func (pd *perRawBitData) appendInteger(value int64, extensive bool, lowerBoundPt
 		y := value >> 63
 		unsignedValue = uint64(((value ^ y) - y)) - 1
 	}
-	if valueRange <= 0 {
+	if valueRange < 0 {
 		unsignedValue >>= 7
+	} else if valueRange == 0 {
+		// semi-constraint: the offset from the lower bound as an unsigned number
+		unsignedValue = uint64(value-lb) >> 8
 	} else if valueRange <= 65536 {
 		return pd.appendConstraintValue(valueRange, uint64(value-lb))
 	} else {
-		unsignedValue >>= 8
+		unsignedValue = uint64(value-lb) >> 8
 	}
 	for rawLength = 1; rawLength <= 127; rawLength++ {
 		if unsignedValue == 0 {
